@@ -643,6 +643,10 @@ func (fr *Frame) mergeStates(edges []string, sts []*State, tag string) State {
 				keys[k] = true
 			}
 		}
+		// monotone ghost counters are materialised as well, so that "at least as large as before" survives the join
+		for g := range fr.eng.cs.Monotone {
+			keys[Sort("Int#"+g)] = true
+		}
 		fr.vc.n++
 		out.base = &havocBase{id: fmt.Sprintf("j%d", fr.vc.n), prev: nil, syms: map[Sort]string{}}
 		fr.vc.assumptions["state join after differing unmodelled calls: memories of sorts first used later are unconstrained"] = true
